@@ -1,8 +1,8 @@
 (* C03 -- concatenation reproduces the from-scratch result of the sequenced pulse.
    This file contains only statements closed by [exact <lemma>] and their assumptions. *)
-From Coq Require Import ZArith Reals List String.
-From FF Require Import Base.Ops Inst.RInst Base.RAlg Model.Numeric Model.Atomic Model.Concat Model.Tie.C03
-                       Proofs.AtomicAlg Proofs.Atomic Proofs.Concat.
+From Coq Require Import ZArith Reals List.
+From FF Require Import Base.Ops Inst.RInst Base.RAlg Model.Numeric Model.Consts Model.Atomic Model.Concat Model.Tie.C03
+                       Proofs.AtomicAlg Proofs.Atomic Proofs.AtomicPC Proofs.Concat Proofs.ConcatInst.
 Import ListNotations.
 
 (* ---------------------------------------------------------------------------------------------------
@@ -33,6 +33,109 @@ Print Assumptions C03_atomic_rule_pauli.
 (* ... and the well-formedness hypothesis for a concrete pair of pieces with non-commuting segments *)
 Example C03_atomic_rule_hyps_satisfiable : Forall (wf_piece ex_ns) [ex_p1; ex_p2].
 Proof. exact atomic_rule_hyps_satisfiable. Qed.
+
+(* regrouping (associativity, `@`, slicing a pulse and re-concatenating the pieces): concatenating a
+   sub-list first gives the same control matrix *)
+Theorem C03_concat_assoc_cm :
+  forall ns d thr om bs ps1 ps2 ps3 a k o,
+    (forall l, (l < length bs)%nat -> fherm d (Cf bs l)) ->
+    (forall X : fmat, feq d X (flin (length bs) (fun l => ftr d (fmul d (Cf bs l) X)) (Cf bs))) ->
+    Forall (wf_piece ns) ps1 -> Forall (wf_piece ns) ps2 -> Forall (wf_piece ns) ps3 ->
+    (a < length ns)%nat -> (k < length bs)%nat -> (o < length om)%nat ->
+    a3get RO (concat_atomic RO d thr om bs ns (ps1 ++ cat_piece (length ns) ps2 :: ps3)) a k o =
+    a3get RO (concat_atomic RO d thr om bs ns (ps1 ++ ps2 ++ ps3)) a k o.
+Proof. exact concat_assoc_cm. Qed.
+Print Assumptions C03_concat_assoc_cm.
+
+(* total propagator of the sequenced pulse = ordered product P_n ... P_1 (util.mdot of the reversed list) *)
+Theorem C03_total_propagator_concat :
+  forall d na ps, Forall wf_spec ps ->
+    feq d (toF (piece_total RO d (cat_piece na ps))) (toF (mdot_rev RO d (map (piece_total RO d) ps))).
+Proof. exact total_propagator_concat. Qed.
+
+(* pulse correlations: the per-pulse control matrices (which = 'correlations') sum to the total one, and the
+   pulse-correlation filter functions sum over both pulse indices to the filter function, for both kinds *)
+Theorem C03_pc_total :
+  forall d thr om bs ns ps a k o, (a < length ns)%nat -> (k < length bs)%nat -> (o < length om)%nat ->
+    a3get RO (cm_pc_total RO (length ns) (length bs) (length om) (concat_atomic_pc RO d thr om bs ns ps)) a k o =
+    a3get RO (concat_atomic RO d thr om bs ns ps) a k o.
+Proof. exact concat_pc_total. Qed.
+Theorem C03_pc_sum_fidelity :
+  forall na nk no Bpc a b o, (a < na)%nat -> (b < na)%nat -> (o < no)%nat ->
+    a3get RO (pc_ff_sum RO na no (pc_filter_function RO na nk no Bpc)) a b o =
+    a3get RO (filter_function RO na nk no (cm_pc_total RO na nk no Bpc)) a b o.
+Proof. exact pc_sum_fidelity. Qed.
+Theorem C03_pc_sum_generalized :
+  forall na nk no Bpc a b k l o, (a < na)%nat -> (b < na)%nat -> (k < nk)%nat -> (l < nk)%nat -> (o < no)%nat ->
+    csumn RO (length Bpc) (fun g => csumn RO (length Bpc) (fun h => pc_ff_gen_entry RO Bpc g h a b k l o)) =
+    ff_gen_entry RO (cm_pc_total RO na nk no Bpc) a b k l o.
+Proof. exact pc_sum_generalized. Qed.
+Print Assumptions C03_pc_sum_fidelity.
+
+(* ---------------------------------------------------------------------------------------------------
+   Hamiltonian concatenation (Model/Concat.v [concatenate_hamiltonian], compared exactly with the
+   implementation).  For any operator type with decidable equality:                                   *)
+Section Hamiltonian.
+Variables (oper coef : Type) (oeqb : oper -> oper -> bool) (ceqb : coef -> coef -> bool) (czero : coef).
+Hypothesis oeqb_spec : forall a b, Bool.reflect (a = b) (oeqb a b).
+
+(* success: operators = the distinct operators of the inputs (matched by value, each once), identifiers sorted,
+   every coefficient row = the pulses' windows one after another with absent windows filled by zero (control)
+   or by the common constant sensitivity (noise), one identifier mapping per pulse on exactly its identifiers *)
+Theorem C03_concat_hamiltonian_denote :
+  forall k hs r, concatenate_hamiltonian oper coef oeqb ceqb czero k hs = inr r ->
+  NoDup (r_ops r) /\
+  (forall pe, In pe (flatten oper coef hs) -> In (e_op (snd pe)) (r_ops r)) /\
+  (forall o, In o (r_ops r) -> exists pe, In pe (flatten oper coef hs) /\ e_op (snd pe) = o) /\
+  Sorted.Sorted (fun a b => String.leb a b = true) (r_ids r) /\
+  Forall2 (fun o row => exists c, row = List.concat (map (window oper coef oeqb c o) hs) /\ (k = Control -> c = czero) /\
+             (k = Noise -> has_none (row_of oper coef oeqb hs o) = true -> somes (row_of oper coef oeqb hs o) <> [] ->
+              exists rest, somes (row_of oper coef oeqb hs o) = c :: rest /\ forallb (ceqb c) rest = true))
+          (r_ops r) (r_rows r) /\
+  map (map fst) (r_map r) = map (fun h => map (@e_id oper coef) (h_entries h)) hs.
+Proof. exact (concat_hamiltonian_denote oper coef oeqb ceqb czero oeqb_spec). Qed.
+
+(* compatible inputs never raise; incompatible ones raise the documented error *)
+Theorem C03_concat_succeeds :
+  forall k hs, oper_ids_clash oper coef oeqb hs = false ->
+    (k = Control \/ forall u, In u (uniq oper coef oeqb hs) -> inferable coef ceqb (row_of oper coef oeqb hs (e_op (snd u))) = true) ->
+    exists r, concatenate_hamiltonian oper coef oeqb ceqb czero k hs = inr r.
+Proof. exact (concat_succeeds oper coef oeqb ceqb czero). Qed.
+Theorem C03_concat_rejects_oper_ids :
+  forall k hs, oper_ids_clash oper coef oeqb hs = true -> concatenate_hamiltonian oper coef oeqb ceqb czero k hs = inl (EOperIds k).
+Proof. exact (concat_rejects_oper_ids oper coef oeqb ceqb czero). Qed.
+Theorem C03_oper_ids_clash_spec :
+  forall hs, oper_ids_clash oper coef oeqb hs = true <->
+    exists pe1 pe2, In pe1 (flatten oper coef hs) /\ In pe2 (flatten oper coef hs) /\
+                    e_op (snd pe1) = e_op (snd pe2) /\ e_id (snd pe1) <> e_id (snd pe2).
+Proof. exact (oper_ids_clash_spec oper coef oeqb ceqb czero oeqb_spec). Qed.
+Theorem C03_concat_rejects_no_infer :
+  forall hs u, oper_ids_clash oper coef oeqb hs = false -> In u (uniq oper coef oeqb hs) ->
+    inferable coef ceqb (row_of oper coef oeqb hs (e_op (snd u))) = false ->
+    concatenate_hamiltonian oper coef oeqb ceqb czero Noise hs = inl ENoInfer.
+Proof. exact (concat_rejects_no_infer oper coef oeqb ceqb czero). Qed.
+(* the pulse position the code finds by bisect on the cumulative operator counts is the model's tag *)
+Theorem C03_bisect_is_pulse_position :
+  forall hs ind dflt, (ind < length (flatten oper coef hs))%nat ->
+    pulse_of_index oper coef hs ind = fst (nth ind (flatten oper coef hs) dflt).
+Proof. exact (bisect_is_pulse_position oper coef). Qed.
+End Hamiltonian.
+Print Assumptions C03_concat_hamiltonian_denote.
+(* the hypothesis (operator comparison decides equality) holds for the instance evaluated against the code *)
+Example C03_instance_decides_equality : forall a b, Bool.reflect (a = b) (Corr.C03Obs.op_eqb a b).
+Proof. exact op_eqb_spec. Qed.
+Example C03_concat_example_succeeds :
+  concatenate_hamiltonian nat Z Nat.eqb Z.eqb 0%Z Noise ex_hams2 = inr ex_result2.
+Proof. exact concat_example_succeeds. Qed.
+
+(* "every identifier of every input is mapped to the identifier its operator carries in the result" and "the rows
+   of each pulse's control matrix land in the rows of the same operators" -- both VIOLATED by the pinned code: *)
+Theorem C03_mapping_refuted : ~ mapping_sound_on hams_ZXZ.
+Proof. exact mapping_refuted. Qed.
+Example C03_mapping_sound_two_pulses : mapping_sound_on hams_ZX.
+Proof. exact mapping_sound_two. Qed.
+Theorem C03_row_assignment_refuted : ~ rows_sound_on hams_flip.
+Proof. exact row_assignment_refuted. Qed.
 
 (* ---------------------------------------------------------------------------------------------------
    Decision logic of concatenate (Model/Concat.v [decide], compared cell by cell with the implementation). *)
@@ -79,3 +182,15 @@ Proof. exact decision_pc_refuted_no_control_matrix. Qed.
 Theorem C03_decision_refuted_crash :
   w_outcome wit_stale_shared [no_cache; no_cache; no_cache] (mkOpts TTrue (Some 0%nat) false false) = ORaise EIndexError.
 Proof. exact decision_crash_refuted. Qed.
+
+(* The proposed minimal repair of concatenate (guards `and not calc_pulse_correlation_FF` on the early exit and on
+   the from-scratch shortcut; identifier mappings updated for every pulse holding the operator; rows placed by
+   identifier) satisfies the full statement.  [decide_fixed] models the PROPOSAL, not the pinned code.          *)
+Theorem C03_decision_sound_for_proposed_fix :
+  forall maps cs o,
+    match decide_fixed maps cs o with
+    | ORaise e => (e = EForced \/ e = ENoFreqPC) /\ o_omega o = None /\ all_equal_nat (grids_consulted cs) = false
+    | ORet r => (freq_dependent r = true -> grid_known cs o r) /\ (o_pc o = true -> t_pc r = true)
+    | OCopy => True
+    end.
+Proof. exact decision_sound_for_proposed_fix. Qed.
